@@ -27,6 +27,13 @@ def run(ctx):
     infile = vlib.write_json(os.path.join(ctx.work, "vecs.json"), vecs)
     trace = os.path.join(ctx.work, "trace.ndjson")
     vlib.go_run(ctx, binary, "TestVerifDtlsFp", infile, trace, timeout=2400)
+    # a peer that is not pion: a raw DTLS client with its own key that may append the honest certificate to its chain
+    chain = [{"chain": c, "role": "server"} for c in ("own", "own+honest", "own+honest+own", "honest-key")]
+    cin = vlib.write_json(os.path.join(ctx.work, "chains.json"), chain)
+    ctrace = os.path.join(ctx.work, "chain.ndjson")
+    vlib.go_run(ctx, binary, "TestVerifDtlsChain", cin, ctrace, timeout=600)
+    with open(trace, "a") as fh:
+        fh.write(open(ctrace).read())
     ctx.viol = vlib.tlc_trace(ctx, "DtlsFp_Trace", "DtlsFp_Trace", trace)
     pr = ctx.cov["predicates"]
     lines = [l for l in vlib.read_ndjson(trace) if l["ev"] == "dtls"]
